@@ -8,6 +8,12 @@ extra_props = [a for a in sys.argv[4:] if not a.startswith('--')]           # mo
 src = '/tmp/wt/out/%s/%s' % (ID, k)
 dst = '/verif/seeded/%s-%s-%s' % (ID, k, name)
 os.makedirs(dst, exist_ok=True)
+old_meta = {}
+if os.path.exists(os.path.join(dst, 'meta.json')):
+    try:
+        old_meta = json.load(open(os.path.join(dst, 'meta.json')))
+    except Exception:
+        old_meta = {}
 for f in ('patch.diff', 'demo.sh', 'demo.patch', 'demo_cmd.txt', 'notes.md'):
     p = os.path.join(src, f)
     if os.path.exists(p) and not (old_meta and '--recheck' in sys.argv):
@@ -15,12 +21,6 @@ for f in ('patch.diff', 'demo.sh', 'demo.patch', 'demo_cmd.txt', 'notes.md'):
 for f in (os.listdir(src) if os.path.isdir(src) and '--recheck' not in sys.argv else []):
     if f.endswith('.rs'):
         shutil.copy(os.path.join(src, f), os.path.join(dst, f))
-old_meta = {}
-if os.path.exists(os.path.join(dst, 'meta.json')):
-    try:
-        old_meta = json.load(open(os.path.join(dst, 'meta.json')))
-    except Exception:
-        old_meta = {}
 conf = {}
 for f in ('confirm.txt', 'confirm2.txt'):
     p = os.path.join(src, f)
